@@ -3,10 +3,11 @@ import json
 import os
 
 import locks
+import rules_seq
 from analysis import Analysis
 from report import Result
 
-LEVEL = {'C06': 'proof', 'C07': 'proof'}
+LEVEL = {'C06': 'proof', 'C07': 'proof', 'C09': 'proof', 'C19': 'proof'}
 _AN = {}
 
 
@@ -52,7 +53,38 @@ def c07(tier, repo):
     return res
 
 
-CHECKS = {'C06': c06, 'C07': c07}
+def c09(tier, repo):
+    res = Result('C09', 'proof')
+    an = analysis(repo)
+    rules_seq.rule_c09(an, res)
+    res.incomplete += an.incomplete
+    res.explanation = ('Finite decision table (DESIGN.md 6.C09): the allow enumerators and the insert_allowed/update_allowed bodies are '
+                       'constant-evaluated from the AST for all three modes; every path of every insert / insert_range body (helpers '
+                       'inlined) is classified by presence x update_allowed x insert_allowed x expired and its abstract effect class '
+                       '(BIND / UPDATE / none) must equal the table row for every completion of the path valuation; rejected rows '
+                       'must be effect-free; the returned bool / the range tally must change exactly on the rows that write.')
+    res.assumptions += ['PRESENT in ut_map/ut_set means live because the purge runs first (decided under C02/C04/C17)',
+                        'that the UPDATE/BIND effects store the right value and deadline is decided under C01/C05']
+    res.floors = {'R-INSERT-TABLE': 80, 'R-REJECT-PURE': 40, 'R-TALLY': 40, 'R-ALLOW-ENC': 7}
+    return res
+
+
+def c19(tier, repo):
+    res = Result('C19', 'proof')
+    an = analysis(repo)
+    rules_seq.rule_noninterference(an, res)
+    res.incomplete += an.incomplete
+    res.explanation = ('Write-freedom (DESIGN.md 6.C19): every path whose valuation is a peek hit, a miss, a rejected insert or an '
+                       'absent-key erase has an empty abstract effect list on container state (so the state is bit-identical and every '
+                       'continuation unchanged); in tlru/utlru the only permitted effects on a lookup of an expired key are the removal '
+                       'of that very entry; in ut_map/ut_set only the expired-prefix purge.')
+    res.assumptions += ['std-library purity classification of stdmodel.py (find/begin/end/size/back are reads)',
+                        'copying a value out (optional<V>{e.m_value}) does not modify the stored value']
+    res.floors = {'R-PURE-NOOP': 60, 'R-REJECT-PURE': 40}
+    return res
+
+
+CHECKS = {'C06': c06, 'C07': c07, 'C09': c09, 'C19': c19}
 
 
 def run(pid, tier, repo, replay=None):
